@@ -22,8 +22,9 @@ EXTENDS Integers, Sequences, FiniteSets, TLC
 
 Abs(x) == IF x < 0 THEN -x ELSE x
 Sign(x) == IF x > 0 THEN 1 ELSE IF x < 0 THEN -1 ELSE 0
-Half(s) == 2 ^ (s - 1)
-Unit(s) == 2 ^ s
+\* (s >= 100 names a lattice that is not a power of two: s - 100 units per pixel, an even number)
+Half(s) == IF s >= 100 THEN (s - 100) \div 2 ELSE 2 ^ (s - 1)
+Unit(s) == IF s >= 100 THEN s - 100 ELSE 2 ^ s
 
 \* edge function of edge a->b at point q (twice the signed area of a, b, q)
 Edge(a, b, q) == (b[1] - a[1]) * (q[2] - a[2]) - (b[2] - a[2]) * (q[1] - a[1])
